@@ -8,7 +8,7 @@ single-flight model and prints the observable state after each burst.
        that a recalculation does not have (`Cfg.recalcSkip`).  The `recalculations` table is there (`guarded := true`).
   do <item> ...                                              -> en=.. callers=.. keys=.. joined=.. now=.. rec=..
        item:  c<caller>:<key>:<n>:<o>[:a<arg>]                           call (script used if it starts an execution)
-                 <o> = r<v> returns v | e<cls>.<p> raises class cls with payload p | k<how> the body ends cancelled
+                 <o> = r<v> returns v | n<v> returns v, which the cache decorator does not store (shown as R<v> too) | e<cls>.<p> raises class cls with payload p | k<how> the body ends cancelled
                        (how: ignored)
                  <key> is the rendered cache key; a<arg> = the argument the key template leaves out (`Act.callWith`)
               x<c>                                                       the body of script <c> passes a suspension point -
@@ -36,6 +36,7 @@ def parseNats? (s : String) : Option (List Nat) :=
 
 def parseOutcome? (s : String) : Option Outcome :=
   if s.startsWith "r" then (dropS s 1).toNat?.map Outcome.ret
+  else if s.startsWith "n" then (dropS s 1).toNat?.map Outcome.retNoStore
   else if s.startsWith "e" then
     match (dropS s 1).splitOn "." with
     | [c, p] => do pure (Outcome.exc (← c.toNat?) (← p.toNat?))
@@ -71,6 +72,7 @@ def showCaller (s : SfSt) (c : Nat) : String :=
   | none => "N"
   | some ⟨_, .waiting⟩ => "W"
   | some ⟨_, .got (.ret v)⟩ => s!"R{v}"
+  | some ⟨_, .got (.retNoStore v)⟩ => s!"R{v}"
   | some ⟨_, .got (.exc e p)⟩ => s!"E{e}.{p}"
   | some ⟨_, .got .cancelled⟩ => "K"
   | some ⟨_, .cancelled⟩ => "C"
